@@ -16,7 +16,9 @@ CFG = {
             "end); requests: exactly one coordinate off POST hysteria /auth (method in POST GET PUT post DELETE; authority in hysteria "
             "Hysteria hysteria:443 hysteria. other.example HYSTERIA hysteria.example xhysteria; path in /auth /auth/ /AUTH //auth /auth?x=1 "
             "/ /%61uth /auth%2f /authx /index.html /auth? /auth/x), arbitrary triples, the exact shape with rejected / accepted / "
-            "absent credentials, each with every subset of Hysteria-Auth / Hysteria-CC-RX / Hysteria-Padding, about every fourth request with a LARGE extra header set "
+            "absent credentials, each with every subset of Hysteria-Auth / Hysteria-CC-RX / Hysteria-Padding, about every third request with ODD Hysteria-* request header values (Hysteria-CC-RX non-numeric / negative / hex / "
+            "'auto' / 2^64 / empty / float / repeated / blanks, padding empty / 8000 chars / repeated / outside the alphabet, credentials repeated / 5000 chars), "
+            "about every fourth request with a LARGE extra header set "
             "(3 KiB, 4.2 KiB, 5 KB, 6 KiB, 20 KiB, 100 KiB in one header; 40x120 B and 160x110 B in many); MasqHandler nil, a logging "
             "404 wrapper, or a custom handler whose status/headers/body depend on the request; non-trivial = request or stream ops",
     "trusted_base": [
